@@ -26,8 +26,8 @@ pub fn run(run: &mut Run) {
     run.min_sigs = 20;
     let seed = run.seed;
     let rc = run.replay_case();
-    let n_exact: u64 = if thorough { 40_000 } else { 2_000 };
-    let n_inexact: u64 = if thorough { 2_000_000 } else { 60_000 };
+    let n_exact: u64 = if thorough { 40_000 } else { 6_000 };
+    let n_inexact: u64 = if thorough { 2_000_000 } else { 200_000 };
     let pool = fixed_pool();
     run.parallel(|w, nw, acc| {
         for i in my_cases(rc, STREAM_EXACT, n_exact, w, nw) {
